@@ -112,6 +112,10 @@ def gen_c12src():
     if not ctor:
         raise E.ExtractError('WitnessLP constructor not found')
     ct = flat(ctor.group(1))
+    # is delta made a free variable too (fixes/C12-6: the LP is then always feasible, INFEASIBLE can only be a solver failure)?
+    delta_free = bool(re.search(r'lp_\.setUnbounded\(S\);.*lp_\.setUnbounded\(S\s*\+\s*1\);', ct))
+    if ct.count('setUnbounded') != (2 if delta_free else 1):
+        raise E.ExtractError('WitnessLP constructor: set of free columns not recognised')
     for pat, what in [(r'lp_\.setObjective\(S\+1, true\);', 'objective = maximise delta'),
                       (r'for \( size_t i = 0; i < S; \+\+i \) lp_\.row\[i\] = 1\.0; lp_\.row\[S\] = 0\.0; lp_\.row\[S \+ 1\] = 0\.0; lp_\.pushRow\(LP::Constraint::Equal, 1\.0\);', 'simplex row'),
                       (r'lp_\.setUnbounded\(S\);', 'K free'),
@@ -159,6 +163,8 @@ def sawGuard : Bool := {b(saw_guard)}
 def lpPrecision : Rat := {lp_prec}
 /-- {REL}: `witnessScale` rescales when `std::abs(std::ilogb(m)) >` this bound (by `std::ldexp(1.0, -e)`) -/
 def witnessExpBound : Nat := {exp_bound}
+/-- {REL}: the WitnessLP constructor makes `delta` (column S+1) a free variable as well as `K` (column S) -/
+def witnessDeltaFree : Bool := {b(delta_free)}
 
 end AITB.Gen.C12Src
 """
